@@ -252,7 +252,15 @@ func (c *Collector) Write(t *testing.T) {
 		f.Samples = []any{fmt.Sprintf("unmarshallable samples: %v", err)}
 		data, _ = json.Marshal(f)
 	}
-	_ = os.WriteFile(out, data, 0o644)
+	// several Test functions may serve one property in one process: never overwrite
+	path := out
+	for i := 2; ; i++ {
+		if _, err := os.Stat(path); err != nil {
+			break
+		}
+		path = fmt.Sprintf("%s.%d", out, i)
+	}
+	_ = os.WriteFile(path, data, 0o644)
 }
 
 // HarnessError reports a problem of the harness itself (never a property
